@@ -5,9 +5,11 @@ import (
 	"encoding/json"
 	"errors"
 	"fmt"
+	"math"
 	"os"
 	"path/filepath"
 	"time"
+	"verif/harness/exec"
 
 	corestore "cosmossdk.io/core/store"
 	"github.com/cosmos/iavl"
@@ -475,6 +477,109 @@ func chunkedRollback(backend string, flush int) string {
 	})
 }
 
+// tallTreeCosts: the read bounds of C11 only bite on tall trees (10h+10 against 11h needs h > 10). 8192 keys in
+// ascending (or descending / alternating) order give height 13; with nothing cached every lookup by key, by rank
+// and every existence test may read at most 2h+2 stored nodes, every proof at most 10h+10; height and size obey
+// the AVL bound; rank and key lookups are inverse.
+func tallTreeCosts(order string) string {
+	return watchdog(120*time.Second, func() string {
+		cdb := &exec.CountDB{KVStoreWithBatch: dbm.NewMemDB()}
+		t := iavl.NewMutableTree(cdb, 0, true, iavl.NewNopLogger())
+		if _, err := t.Load(); err != nil {
+			return err.Error()
+		}
+		const n = 8192
+		key := func(i int) []byte { return []byte(fmt.Sprintf("k%06d", 2*i+1)) } // odd numbers: even ones are gaps
+		for j := 0; j < n; j++ {
+			i := j
+			switch order {
+			case "descending":
+				i = n - 1 - j
+			case "alternating":
+				if j%2 == 0 {
+					i = j / 2
+				} else {
+					i = n - 1 - j/2
+				}
+			}
+			if _, err := t.Set(key(i), []byte("v")); err != nil {
+				return err.Error()
+			}
+			if j%1000 == 999 {
+				if _, _, err := t.SaveVersion(); err != nil {
+					return err.Error()
+				}
+			}
+		}
+		_, ver, err := t.SaveVersion()
+		if err != nil {
+			return err.Error()
+		}
+		_ = t.Close()
+		h := iavl.NewMutableTree(cdb, 0, true, iavl.NewNopLogger())
+		it, err := h.GetImmutable(ver)
+		if err != nil {
+			return err.Error()
+		}
+		hh, size := int64(it.Height()), it.Size()
+		if size != n || float64(hh) > 1.4405*math.Log2(float64(size)+2) {
+			return fmt.Sprintf("height %d, size %d: the AVL bound is %.2f", hh, size, 1.4405*math.Log2(float64(size)+2))
+		}
+		cdb.Take()
+		probe := func(what string, bound int64) string {
+			if got := cdb.Take(); got > bound {
+				return fmt.Sprintf("%s order, height %d: %s reads %d stored nodes, bound %d", order, hh, what, got, bound)
+			}
+			return ""
+		}
+		for _, i := range []int{0, 1, 2, n / 3, n / 2, n - 3, n - 2, n - 1} {
+			k := key(i)
+			idx, v, err := it.GetWithIndex(k)
+			if err != nil || idx != int64(i) || string(v) != "v" {
+				return fmt.Sprintf("GetWithIndex(%s) = %d, %s, %v", k, idx, v, err)
+			}
+			if m := probe(fmt.Sprintf("GetWithIndex(%s)", k), 2*hh+2); m != "" {
+				return m
+			}
+			k2, _, err := it.GetByIndex(int64(i))
+			if err != nil || !bytes.Equal(k2, k) {
+				return fmt.Sprintf("GetByIndex(%d) = %s, %v", i, k2, err)
+			}
+			if m := probe(fmt.Sprintf("GetByIndex(%d)", i), 2*hh+2); m != "" {
+				return m
+			}
+			_, _ = it.Get(k)
+			if m := probe(fmt.Sprintf("Get(%s)", k), 2*hh+2); m != "" {
+				return m
+			}
+			_, _ = it.Has(k)
+			if m := probe(fmt.Sprintf("Has(%s)", k), 2*hh+2); m != "" {
+				return m
+			}
+			if _, err := it.GetProof(k); err != nil {
+				return fmt.Sprintf("GetProof(%s): %v", k, err)
+			}
+			if m := probe(fmt.Sprintf("existence proof of %s", k), 10*hh+10); m != "" {
+				return m
+			}
+			// the gap just above key i (and the one below the first key)
+			for _, g := range [][]byte{[]byte(fmt.Sprintf("k%06d", 2*i+2)), []byte("k000000")} {
+				if _, err := it.GetProof(g); err != nil {
+					return fmt.Sprintf("GetProof(%s): %v", g, err)
+				}
+				if m := probe(fmt.Sprintf("absence proof of %s", g), 10*hh+10); m != "" {
+					return m
+				}
+				_, _ = it.Has(g)
+				if m := probe(fmt.Sprintf("Has(%s) of an absent key", g), 2*hh+2); m != "" {
+					return m
+				}
+			}
+		}
+		return ""
+	})
+}
+
 type scenarioResult struct {
 	Name string `json:"scenario"`
 	Msg  string `json:"observed"`
@@ -509,6 +614,9 @@ var allScenarios = map[string]func() string{
 	"chunked-rollback/level/flush100000":      func() string { return chunkedRollback("level", 100000) },
 	"empty-key-round-trip/plain":              func() string { return emptyKeyRoundTrip(false, true) },
 	"empty-key-round-trip/compressed":         func() string { return emptyKeyRoundTrip(true, false) },
+	"tall-tree-costs/ascending":               func() string { return tallTreeCosts("ascending") },
+	"tall-tree-costs/descending":              func() string { return tallTreeCosts("descending") },
+	"tall-tree-costs/alternating":             func() string { return tallTreeCosts("alternating") },
 	"large-index-rebuild/mem/flush150":        func() string { return largeIndexRebuild("mem", 150) },
 	"large-index-rebuild/level/flush150":      func() string { return largeIndexRebuild("level", 150) },
 	"multi-batch-import/index-on/plain":       func() string { return multiBatchImport(true, false, false) },
